@@ -52,6 +52,10 @@ func reconnMain(args []string) {
 	var wg sync.WaitGroup
 	var mu sync.Mutex
 	evals := 0
+	if cf.replay == "" {
+		// first: the goroutine diagnoser looks at the whole process
+		evals += outageScenario(sum)
+	}
 	for s := 0; s < shards; s++ {
 		wg.Add(1)
 		go func() {
